@@ -61,6 +61,11 @@ var handShapes = []string{
 	`{ beings { ... on Node { ... on Pet { weight } id } } }`,
 	`{ beings { ... on Being { ... on Node { ... on Human { phone } } } } }`,
 	`{ beings { ... on Node { ... on Human { phone } } } }`,
+	// a member type of a union nothing is selected for, in a list with the others (fix ba7bf6b; the first one formerly
+	// the listed finding C01-union-member-without-fields)
+	`{ beings { ... on Pet { weight } } }`,
+	`{ beings { ... on Human { phone } } }`,
+	`{ humans { friend { name } pets { owner { phone } } } beings { ... on Pet { owner { phone } } } }`,
 }
 
 func worldFor(seed int64, domain string) *gen.World {
@@ -237,6 +242,7 @@ func driveC01(seed int64, tier, out, replay string) {
 		} else {
 			oo := opOptionsFor(c.Domain, r.World)
 			oo.TwinRoots = c.OpSeed%5 == 0
+			oo.UnionPartial = c.OpSeed%3 == 0 // member types nothing is selected for (since fix ba7bf6b)
 			if c.Domain == "ifaces_wild" {
 				oo.Wild, oo.TwinRoots, oo.Directives, oo.NamedFrags = true, false, false, false
 			}
